@@ -106,6 +106,7 @@ type FV struct {
 	siteCount  map[string]int
 	quantSorts map[string]string
 	countFuns  map[string]string
+	sliceKeyID map[string]Term // backing array of a keyformat.Encode result -> key identity
 	allocLimit Term
 
 	notes           []string
@@ -207,7 +208,7 @@ func (eng *Engine) newFV(u *FuncUnit) *FV {
 		entryVals: map[types.Object]Value{}, oblNames: map[string]int{},
 		compSort: map[string]string{}, epochDefs: map[int]epochDef{}, loopOrd: map[ast.Stmt]int{},
 		boxed: map[types.Object]bool{}, localMaps: map[types.Object]bool{}, freshMapRefs: map[string]bool{}, closures: map[string]*ast.FuncLit{}, strs: map[string]Term{}, strVals: map[string]string{},
-		globalSeen: map[string]bool{}, siteCount: map[string]int{}, quantSorts: map[string]string{}, countFuns: map[string]string{}, noteSeen: map[string]bool{},
+		globalSeen: map[string]bool{}, siteCount: map[string]int{}, quantSorts: map[string]string{}, countFuns: map[string]string{}, sliceKeyID: map[string]Term{}, noteSeen: map[string]bool{},
 		assumptionsUsed: map[string]bool{}, trustedUsed: map[string]bool{}, opaqueUsed: map[string]bool{}, calleesUsed: map[string]bool{}}
 	fv.s.declConst("str_empty", sStr)
 	fv.strs[""] = Term{"str_empty", sStr}
@@ -371,8 +372,10 @@ func (fv *FV) run() {
 			continue
 		}
 		exitPCs = append(exitPCs, ex.env.pc)
-		fv.obls = append(fv.obls, &Obligation{Name: fmt.Sprintf("%s#reach.return%d", u.Name(), k+1), Kind: "reach", Func: u.Name(), Pos: fv.posStr(ex.pos),
-			Desc: "this return is reachable under the assumptions (informational)", Expect: "not-unsat", upto: fv.s.mark(), goal: not(ex.env.pc)})
+		if fv.eng.reachNotes {
+			fv.obls = append(fv.obls, &Obligation{Name: fmt.Sprintf("%s#reach.return%d", u.Name(), k+1), Kind: "reach", Func: u.Name(), Pos: fv.posStr(ex.pos),
+				Desc: "this return is reachable under the assumptions (informational)", Expect: "not-unsat", upto: fv.s.mark(), goal: not(ex.env.pc)})
+		}
 		fv.checkExit(ex, k)
 	}
 	if len(exitPCs) > 0 {
